@@ -64,6 +64,12 @@ type input struct {
 	Maxt         int64      `json:"maxt"`
 	NStores      int        `json:"nstores"`
 	Series       []inSeries `json:"series"`
+	// Tsdb: the stores are real store.TSDBStore instances over real TSDBs (tsdbstores.go);
+	// the chunk entries then only say which samples sit on which store, the TSDB
+	// cuts chunks of SamplesPerChunk samples and frames of about FrameBytes bytes.
+	Tsdb            bool `json:"tsdb,omitempty"`
+	SamplesPerChunk int  `json:"samples_per_chunk,omitempty"`
+	FrameBytes      int  `json:"frame_bytes,omitempty"`
 }
 
 // ---- tie T -------------------------------------------------------------------
@@ -396,17 +402,39 @@ func run(raw json.RawMessage) (common.Case, error) {
 	if in.NStores < 1 || in.NStores > 16 || len(in.Series) > 32 {
 		return c, fmt.Errorf("bad sizes")
 	}
-	stores, err := buildStores(in)
-	if err != nil {
-		return c, err
-	}
-	cls := make([]store.Client, len(stores))
-	for i, s := range stores {
-		cls[i] = &storetestutil.TestClient{
-			Name:        fmt.Sprintf("store-%d", i),
-			StoreClient: storepb.ServerAsClient(s, atomic.Bool{}),
-			MinTime:     math.MinInt64, MaxTime: math.MaxInt64,
-			WithoutReplicaLabelsEnabled: false,
+	var cls []store.Client
+	var tstores []*tsdbStore
+	if in.Tsdb {
+		var err error
+		tstores, err = buildTSDBStores(in)
+		if err != nil {
+			return c, err
+		}
+		defer func() {
+			for _, t := range tstores {
+				t.close()
+			}
+		}()
+		for i, t := range tstores {
+			cls = append(cls, &storetestutil.TestClient{
+				Name:        fmt.Sprintf("tsdb-%d", i),
+				StoreClient: storepb.ServerAsClient(t.st, atomic.Bool{}),
+				MinTime:     math.MinInt64, MaxTime: math.MaxInt64,
+				WithoutReplicaLabelsEnabled: true,
+			})
+		}
+	} else {
+		stores, err := buildStores(in)
+		if err != nil {
+			return c, err
+		}
+		for i, s := range stores {
+			cls = append(cls, &storetestutil.TestClient{
+				Name:        fmt.Sprintf("store-%d", i),
+				StoreClient: storepb.ServerAsClient(s, atomic.Bool{}),
+				MinTime:     math.MinInt64, MaxTime: math.MaxInt64,
+				WithoutReplicaLabelsEnabled: false,
+			})
 		}
 	}
 	proxy := store.NewProxyStore(nil, nil, func() []store.Client { return cls }, component.Query, labels.EmptyLabels(), 0, store.EagerRetrieval)
@@ -482,9 +510,19 @@ func run(raw json.RawMessage) (common.Case, error) {
 			for _, r := range s.Replicas {
 				nrep++
 				var chunks []string
-				for _, ch := range r.Chunks {
-					chunks = append(chunks, coqChunk(r.Samples[ch.From:ch.To]))
-					nchunks++
+				if in.Tsdb {
+					key := fullLabels(in, s, r).String()
+					for _, t := range tstores {
+						for _, smp := range t.chunks[key] {
+							chunks = append(chunks, coqChunk(smp))
+							nchunks++
+						}
+					}
+				} else {
+					for _, ch := range r.Chunks {
+						chunks = append(chunks, coqChunk(r.Samples[ch.From:ch.To]))
+						nchunks++
+					}
 				}
 				reps = append(reps, common.App("mkR", common.Bytes(r.Val), coqSamples(r.Samples), common.List(chunks)))
 				if !sameSamples(r.Samples, s.Replicas[0].Samples) {
@@ -545,6 +583,9 @@ func run(raw json.RawMessage) (common.Case, error) {
 		c.Coq = common.App("CPlain", common.Z(in.Mint), common.Z(in.Maxt), common.List(poTerms), common.List(outTerms))
 	}
 	c.Nontrivial = nrep >= 2 && nchunks > nrep
+	if in.Tsdb {
+		c.Class = "tsdb-" + c.Class
+	}
 	return c, nil
 }
 
@@ -559,8 +600,11 @@ func cutsOverlapWithinReplica2(s inSeries) bool {
 
 // ---- generator -------------------------------------------------------------------
 
-func genSamples(r *rand.Rand, n int) [][2]int64 {
+func genSamples(r *rand.Rand, n int, fixedBase int64) [][2]int64 {
 	base := common.Pick(r, int64(0), 1000, 1600000000000, -50000, 7)
+	if fixedBase >= 0 {
+		base = fixedBase // one TSDB head: all series start at the same time
+	}
 	step := common.Pick(r, int64(1), 2, 10, 1000, 15000, 30000)
 	out := make([][2]int64, n)
 	t := base
@@ -605,6 +649,37 @@ func genCuts(r *rand.Rand, n, nstores int, overlap bool) []inChunk {
 	return out
 }
 
+// placement for TSDB-backed stores: every store gets at most one contiguous run of a
+// replica's samples (so that the chunks its TSDB cuts are consecutive pieces of the
+// replica's samples); with overlap, runs start before the previous one ends.
+func genRuns(r *rand.Rand, n, nstores int, overlap bool) []inChunk {
+	k := 1 + r.Intn(nstores)
+	if k > n {
+		k = n
+	}
+	perm := r.Perm(nstores)[:k]
+	// k-1 distinct cut points in (0, n)
+	cuts := map[int]bool{}
+	for len(cuts) < k-1 {
+		cuts[1+r.Intn(n-1)] = true
+	}
+	var pts []int
+	for c := range cuts {
+		pts = append(pts, c)
+	}
+	sort.Ints(pts)
+	pts = append(append([]int{0}, pts...), n)
+	var out []inChunk
+	for i := 0; i < k; i++ {
+		from := pts[i]
+		if overlap && from > 0 && r.Intn(2) == 0 {
+			from = from - 1 - r.Intn(from)
+		}
+		out = append(out, inChunk{From: from, To: pts[i+1], Store: perm[i]})
+	}
+	return out
+}
+
 func gen(r *rand.Rand, tier string, n int) []any {
 	var out []any
 	maxN := 24
@@ -612,7 +687,16 @@ func gen(r *rand.Rand, tier string, n int) []any {
 		maxN = 60
 	}
 	for i := 0; i < n; i++ {
+		tsdbBase := int64(-1)
 		in := input{Dedup: r.Intn(4) > 0, ReplicaLabel: common.Pick(r, "replica", "a_rep", "zz"), NStores: 1 + r.Intn(4)}
+		if r.Intn(4) == 0 {
+			// real TSDBStore-backed stores, chunks of a few samples, frames of a few chunks
+			in.Tsdb = true
+			in.SamplesPerChunk = common.Pick(r, 1, 2, 3, 4, 8)
+			in.FrameBytes = common.Pick(r, 1, 40, 80, 160, 400, 1<<20)
+			in.NStores = 1 + r.Intn(3)
+			tsdbBase = common.Pick(r, int64(0), 1000, 1600000000000, 50000)
+		}
 		overlapCase := r.Intn(6) == 0
 		nser := 1 + r.Intn(3)
 		lo, hi := int64(math.MaxInt64), int64(math.MinInt64)
@@ -622,7 +706,7 @@ func gen(r *rand.Rand, tier string, n int) []any {
 				ser.Labels = append(ser.Labels, [2]string{"zone", common.Pick(r, "a", "b")})
 			}
 			nrep := 1 + r.Intn(4)
-			base := genSamples(r, 1+r.Intn(maxN))
+			base := genSamples(r, 1+r.Intn(maxN), tsdbBase)
 			identicalReplicas := r.Intn(10) < 7
 			for k := 0; k < nrep; k++ {
 				smp := base
@@ -646,7 +730,11 @@ func gen(r *rand.Rand, tier string, n int) []any {
 						}
 					}
 				}
-				ser.Replicas = append(ser.Replicas, inReplica{Val: fmt.Sprintf("r%d", k), Samples: smp, Chunks: genCuts(r, len(smp), in.NStores, overlapCase)})
+				cuts := genCuts(r, len(smp), in.NStores, overlapCase)
+				if in.Tsdb {
+					cuts = genRuns(r, len(smp), in.NStores, overlapCase)
+				}
+				ser.Replicas = append(ser.Replicas, inReplica{Val: fmt.Sprintf("r%d", k), Samples: smp, Chunks: cuts})
 				if smp[0][0] < lo {
 					lo = smp[0][0]
 				}
@@ -657,7 +745,12 @@ func gen(r *rand.Rand, tier string, n int) []any {
 			in.Series = append(in.Series, ser)
 		}
 		in.Mint, in.Maxt = -(1 << 62), 1<<62
-		switch r.Intn(10) {
+		rangeKind := r.Intn(10)
+		if in.Tsdb {
+			// a TSDB store does not return series without data in the range: keep the range wide
+			rangeKind = 9
+		}
+		switch rangeKind {
 		case 0:
 			in.Mint = lo + (hi-lo)/3
 		case 1:
